@@ -572,7 +572,7 @@ func C05(run *mon.Run) {
 			run.Violate("C05:g2-both-orders-accepted", "both coefficient orders decode to the generator", nil)
 		}
 	}
-	nFlip := run.Pick(2, 12)
+	nFlip := run.Pick(2, 48)
 
 	var wg sync.WaitGroup
 	sem := make(chan struct{}, 16)
